@@ -79,11 +79,13 @@ pub struct WsGenOpts {
     pub allow_hard_error: bool,
     /// chance (out of 8) that a start file ends in a very long line (longer than any I/O buffer)
     pub long_last_line_chance: u32,
+    /// DOS line ends in all files and patch files of the workspace
+    pub allow_crlf: bool,
 }
 
 impl Default for WsGenOpts {
     fn default() -> Self {
-        WsGenOpts { max_patches: 6, max_files: 8, fail_chance: 3, allow_reverse: true, allow_rename: true, allow_mode: true, allow_strip: true, nasty_names: false, allow_dup_entries: true, allow_dir_races: true, max_lines: 30, strict_reject_dirs: false, alt_name_chance: 0, allow_misordered: false, second_failure: false, allow_hard_error: false, long_last_line_chance: 0 }
+        WsGenOpts { max_patches: 6, max_files: 8, fail_chance: 3, allow_reverse: true, allow_rename: true, allow_mode: true, allow_strip: true, nasty_names: false, allow_dup_entries: true, allow_dir_races: true, max_lines: 30, strict_reject_dirs: false, alt_name_chance: 0, allow_misordered: false, second_failure: false, allow_hard_error: false, long_last_line_chance: 0, allow_crlf: true }
     }
 }
 
@@ -857,7 +859,25 @@ pub fn gen_ws(ch: &mut Chooser, cx: &mut CaseCtx, o: &WsGenOpts) -> WsCase {
     let mut s = series.join("\n");
     s.push('\n');
     let spec = WsSpec { tree: t0, patches, series: B(s.into_bytes()), applied: None, dirs: vec![], symlinks: vec![] };
-    WsCase { spec, states, metas, fail_at, feat }
+    let mut case = WsCase { spec, states, metas, fail_at, feat };
+    // a tree of DOS text files and patches written there: every line of the files and of the patch files,
+    // headers included, ends in CR LF
+    let no_marker = case.spec.patches.iter().all(|(_, t)| !t.0.windows(12).any(|w| w == b"\\ No newline")) && case.states.iter().all(|st| st.files.values().all(|f| f.data.is_empty() || f.data.0.last() == Some(&b'\n')));
+    if o.allow_crlf && no_marker && case.metas.iter().all(|m| !m.git) && ch.chance(1, 10) {
+        case.to_crlf();
+    }
+    case
+}
+
+fn crlf(data: &[u8]) -> Vec<u8> {
+    let mut out = Vec::with_capacity(data.len() + data.len() / 16);
+    for (i, &c) in data.iter().enumerate() {
+        if c == b'\n' && (i == 0 || data[i - 1] != b'\r') {
+            out.push(b'\r');
+        }
+        out.push(c);
+    }
+    out
 }
 
 fn canon_blocks(ops: &[Op]) -> Vec<Op> {
@@ -889,6 +909,29 @@ pub fn is_k2_shape(hunks: &[HHunk]) -> bool {
 }
 
 impl WsCase {
+    pub fn to_crlf(&mut self) {
+        for f in self.spec.tree.files.values_mut() {
+            f.data = B(crlf(&f.data.0));
+        }
+        for st in self.states.iter_mut() {
+            for f in st.files.values_mut() {
+                f.data = B(crlf(&f.data.0));
+            }
+        }
+        for p in self.spec.patches.iter_mut() {
+            p.1 = B(crlf(&p.1 .0));
+        }
+        for m in self.metas.iter_mut() {
+            for op in m.ops.iter_mut() {
+                for h in op.hunks.iter_mut() {
+                    for l in h.lines.iter_mut() {
+                        l.text = B(crlf(&l.text.0));
+                    }
+                }
+            }
+        }
+        self.feat.push("crlf-files-and-patches".into());
+    }
     /// insert a zero-length patch file (which applies trivially) before patch `idx`
     pub fn insert_empty_patch(&mut self, idx: usize) {
         let name = format!("empty-{}.patch", idx);
